@@ -286,8 +286,8 @@ def run(tier, seed):
         "distinct_nontrivial": len(acc.sets.get("pairs", ())) + len(acc.sets.get("neighbours", ())),
         "rule": "per tree: all ordered pairs of the states reachable by <=2 fills (weights {1,0.5}); every structural "
                 "neighbour (one parameter / key / member / child type changed at any depth) in empty and filled states; "
-                "reflexive family (itself, copy, copy of copy, pickle clone, a+zero, a*1, JSON reload, reloads of a document with NaN "
-                "entries) under tolerances (0,0),(1e-12,0),(0,1e-12); pairs of states that differ only by rounding (weights "
+                "reflexive family (itself, copy, copy of copy, pickle clone, a+zero, a*1, zero()+=a, copy()+=zero(), copy()+=a vs a+a "
+                "where the documents are identical, JSON reload, reloads of a document with NaN entries) under tolerances (0,0),(1e-12,0),(0,1e-12); pairs of states that differ only by rounding (weights "
                 "0.1+0.2 vs 0.3) under four tolerances: symmetry, != negation, widening; "
                 "distinct = pairs with different content + (tree, neighbour, state)",
         "exhaustive": True,
